@@ -54,7 +54,11 @@ ReplyHandledAt(i) == (i > 1 /\ Trace[i].run = Trace[i - 1].run /\ Trace[i].t # "
 (* C07: the report made ready for upload is the week's one report, never a second or different one *)
 ReadyMatchesLocalAt(x) == \A w \in Weeks(x) : (x.localr[w].st = "file" /\ x.localr[w].complete /\ x.ready[w].st = "file" /\ x.ready[w].complete)
                              => ToSet(x.ready[w].files) = ToSet(x.localr[w].files)
-Bad == {<<i, "ReadyMatchesLocal">> : i \in {j \in 1..Len(Trace) : ~ReadyMatchesLocalAt(Trace[j])}} \cup
+(* C08: an uploader that was not killed gives its lock back whatever the server answered (or did not), *)
+(* so that the report is left in place "for a later run" and not for nobody                           *)
+NoLockLeftAt(x) == (x.quiet /\ x.nokill) => \A w \in Weeks(x) : ~x.lock[w]
+Bad == {<<i, "NoLockLeft">> : i \in {j \in 1..Len(Trace) : ~NoLockLeftAt(Trace[j])}} \cup
+       {<<i, "ReadyMatchesLocal">> : i \in {j \in 1..Len(Trace) : ~ReadyMatchesLocalAt(Trace[j])}} \cup
        {<<i, "ReplyHandled">> : i \in {j \in 1..Len(Trace) : ~ReplyHandledAt(j)}} \cup
        {<<i, "OneBodyPerWeek">> : i \in {j \in 1..Len(Trace) : ~OneBodyPerWeekAt(Trace[j])}}
        \cup {<<i, "NoResendAfterRecorded">> : i \in {j \in 1..Len(Trace) : ~NoResendAt(Trace[j])}}
@@ -65,5 +69,5 @@ Bad == {<<i, "ReadyMatchesLocal">> : i \in {j \in 1..Len(Trace) : ~ReadyMatchesL
        \cup {<<i, "ReportStable">> : i \in {j \in 1..Len(Trace) : ~ReportStableAt(j)}}
 ASSUME PrintT(<<"C08BAD", Bad>>)
 AllGood == /\ OneBodyPerWeekAt(Trace[l]) /\ NoResendAt(Trace[l]) /\ MarkerOnlyAfterAckAt(Trace[l]) /\ UntouchedAt(Trace[l])
-           /\ OneLocalReportAt(Trace[l]) /\ DeleteOnlyAfterReportAt(l) /\ ReportStableAt(l) /\ ReplyHandledAt(l) /\ ReadyMatchesLocalAt(Trace[l])
+           /\ OneLocalReportAt(Trace[l]) /\ DeleteOnlyAfterReportAt(l) /\ ReportStableAt(l) /\ ReplyHandledAt(l) /\ ReadyMatchesLocalAt(Trace[l]) /\ NoLockLeftAt(Trace[l])
 =============================================================================
